@@ -13,7 +13,7 @@
            pairs every address with every enabled transport) or the repaired one.
    Part 5  observations, the correspondence relation and the C18 MONITOR (named checks that
            state the property over what the implementation published).
-   (The gathering-state machine is in Model/GatherCycle.v.) *)
+   (The gathering-state machine is in Model/GatherStateCycle.v.) *)
 From Coq Require Import ZArith Bool String List.
 From Ice Require Import Model.PrioSpec Gen.Names Gen.Prio.
 Import ListNotations.
